@@ -18,7 +18,8 @@ Record case := {
   o_left : Z;             (* gas handed back *)
   o_state_eq : bool;      (* digest of bank+evm+wasm+oracle stores unchanged (after StateDB commit) *)
   o_core_eq : bool;       (* the same digest ignoring the unibi balances of caller and precompile account *)
-  o_oog_panic : bool      (* the recovered Go panic value was sdk.ErrorOutOfGas *)
+  o_oog_panic : bool;     (* the recovered Go panic value was sdk.ErrorOutOfGas *)
+  o_mint_panic : bool     (* the recovered Go panic was sdkmath's "integer overflow" under bank.MintCoins *)
 }.
 
 (** body oracle read off the observation; state = number of writes *)
@@ -29,11 +30,13 @@ Definition obs_body (c : case) : mid -> list arg -> Z -> Z -> bres Z :=
     | Ok => BOk st' (lim - o_left c)
     | Err => BErr st' 0
     | OutOfGas => BOog st'
-    | Panic => if o_oog_panic c then BOog st' else BErr st' 0
+    | Panic => if o_oog_panic c then BOog st' else if o_mint_panic c then BMint st' two256 0 else BErr st' 0
     end.
 
+Definition obs_after : mid -> list arg -> Z -> Z -> bres Z := fun _ _ st _ => BErr st 0.
+
 Definition model_result (F : facts) (c : case) : result Z :=
-  evm_call Z (obs_body c) (fun st _ => st + 1) F (c_pc c) (c_kind c) (c_value c) (c_gas c) (c_inp c) 0.
+  evm_call Z (obs_body c) obs_after (fun st _ => st + 1) F (c_pc c) (c_kind c) (c_value c) (c_gas c) (c_inp c) 0.
 
 (** gas the body must at least / exactly have used when the call succeeded *)
 Definition body_gas_ok (F : facts) (c : case) : bool :=
